@@ -29,10 +29,41 @@ NoOut == [kind |-> "none"]
 NoIndexS == [none |-> TRUE]
 HasIndexS(schema) == "dtype" \in DOMAIN schema.index
 
-Start(schema, field, lz, ip, dv) ==
-  [S |-> schema, inp0 |-> field, lazy |-> lz, inplace |-> ip, dev |-> dv,
+(* head / tail / sample: the rows the data-level checks are shown.               *)
+(* sel = [all |-> TRUE] or [all |-> FALSE, pos |-> positions in the order         *)
+(* head ++ tail ++ sample]; the sampled positions are an environment input.       *)
+SelAll == [all |-> TRUE, pos |-> <<>>, head |-> -1, tail |-> -1, sample |-> 0, rs |-> 0]
+RECURSIVE DedupByLabel(_, _)
+DedupByLabel(seq, idx) ==      \* keep the first selected row of every index label
+  IF seq = <<>> THEN <<>>
+  ELSE LET r == DedupByLabel(SubSeq(seq, 1, Len(seq) - 1), idx)
+       IN IF \E j \in 1..Len(r) : idx[r[j]] = idx[seq[Len(seq)]] THEN r ELSE Append(r, seq[Len(seq)])
+RECURSIVE DedupByPos(_)
+DedupByPos(seq) ==             \* keep the first occurrence of every position
+  IF seq = <<>> THEN <<>>
+  ELSE LET r == DedupByPos(SubSeq(seq, 1, Len(seq) - 1))
+       IN IF seq[Len(seq)] \in Range(r) THEN r ELSE Append(r, seq[Len(seq)])
+(* Ideal: every selected row once (by position).  Deviation SubsampleDedupByLabel: *)
+(* rows are de-duplicated by index LABEL, so a selected row that shares its label   *)
+(* with an earlier selected row is never checked.                                   *)
+Selected(sel, idx, dev) ==
+  IF sel.all THEN [ i \in 1..Len(idx) |-> i ]
+  ELSE IF "SubsampleDedupByLabel" \in dev THEN DedupByLabel(sel.pos, idx)
+       ELSE DedupByPos(sel.pos)
+SubField(f, seq) == [f EXCEPT !.cells = [ j \in 1..Len(seq) |-> f.cells[seq[j]] ],
+                              !.idx   = [ j \in 1..Len(seq) |-> f.idx[seq[j]] ]]
+HeadTailSample(n, h, t, P) ==      \* -1 = option not given
+  (IF h >= 0 THEN [ i \in 1..(IF h < n THEN h ELSE n) |-> i ] ELSE <<>>)
+   \o (IF t >= 0 THEN [ i \in 1..(IF t < n THEN t ELSE n) |-> n - (IF t < n THEN t ELSE n) + i ] ELSE <<>>)
+   \o P
+
+StartSel(schema, field, lz, ip, dv, sl) ==
+  [S |-> schema, inp0 |-> field, lazy |-> lz, inplace |-> ip, dev |-> dv, sel |-> sl,
    inp |-> field, obj |-> field, aliased |-> TRUE,
    errs |-> <<>>, raised |-> FALSE, pc |-> "preprocess", ci |-> 1, out |-> NoOut]
+Start(schema, field, lz, ip, dv) == StartSel(schema, field, lz, ip, dv, SelAll)
+(* the object the core checks are shown *)
+View(st) == IF st.sel.all THEN st.obj ELSE SubField(st.obj, Selected(st.sel, st.obj.idx, st.dev))
 
 (* ErrorHandler.collect_error: raise at once when eager, append when lazy *)
 Collect(st, new) ==
@@ -46,7 +77,7 @@ Write(st, new) == [st EXCEPT !.obj = new, !.inp = IF st.aliased THEN new ELSE @]
 Goto(st, next) == [st EXCEPT !.pc = next]
 
 (* failure cases carry the index label of the row (positions -> labels) *)
-L(st, es) == Labelled(es, st.obj.idx)
+L(st, es) == Labelled(es, View(st).idx)
 
 Preprocess(st) ==                  \* check_obj if inplace else check_obj.copy()
   Goto([st EXCEPT !.aliased = st.inplace, !.obj = st.inp], "default")
@@ -57,18 +88,18 @@ SetDefault(st) ==                  \* check_obj = check_obj.fillna(default): a n
 
 CoerceDtype(st) ==                 \* check_obj = try_coerce(check_obj): a new object, or an error
   Goto(IF st.S.coerce /\ st.S.dtype # "none" /\ ~st.raised
-       THEN LET es == L(st, CoerceErrors(st.S.dtype, st.obj))
+       THEN LET es == Labelled(CoerceErrors(st.S.dtype, st.obj), st.obj.idx)
             IN Collect([st EXCEPT !.obj = CoerceField(st.S.dtype, @),
                                   !.aliased = IF es = <<>> THEN FALSE ELSE @], es)
        ELSE st, "name")
 
-CheckName(st)     == Goto(Collect(st, L(st, CoreName(st.S, st.obj))), "nullable")
-CheckNullable(st) == Goto(Collect(st, L(st, CoreNullable(st.S, st.obj))), "unique")
-CheckUnique(st)   == Goto(Collect(st, L(st, CoreUnique(st.S, st.obj))), "dtype")
-CheckDtype(st)    == Goto(Collect(st, L(st, CoreDtype(st.S, st.obj))), "checks")
+CheckName(st)     == Goto(Collect(st, L(st, CoreName(st.S, View(st)))), "nullable")
+CheckNullable(st) == Goto(Collect(st, L(st, CoreNullable(st.S, View(st)))), "unique")
+CheckUnique(st)   == Goto(Collect(st, L(st, CoreUnique(st.S, View(st)))), "dtype")
+CheckDtype(st)    == Goto(Collect(st, L(st, CoreDtype(st.S, View(st)))), "checks")
 
 RunCheck(st) ==                    \* one user check per step
-  [Collect(st, L(st, CoreCheck(st.S, st.obj, st.ci))) EXCEPT !.ci = st.ci + 1]
+  [Collect(st, L(st, CoreCheck(st.S, View(st), st.ci))) EXCEPT !.ci = st.ci + 1]
 
 Raise(st) == [kind |-> IF st.lazy THEN "SchemaErrors" ELSE "SchemaError", errors |-> st.errs]
 
@@ -170,7 +201,7 @@ ReportExact ==
      IF st.lazy THEN st.out.errors = AllErrors(st) ELSE st.out.errors = <<AllErrors(st)[1]>>
 LazyEagerAgree ==
   Done /\ Ideal =>
-     LET other == Run(Start(st.S, st.inp0, ~st.lazy, st.inplace, st.dev))
+     LET other == Run(StartSel(st.S, st.inp0, ~st.lazy, st.inplace, st.dev, st.sel))
          lz == IF st.lazy THEN st ELSE other
          eg == IF st.lazy THEN other ELSE st
      IN /\ (lz.out.kind = "ok") <=> (eg.out.kind = "ok")
@@ -193,6 +224,18 @@ ParseFixpoint ==
   Done /\ Ideal /\ st.out.kind = "ok" =>
      LET again == Run(Start(st.S, st.out.returned, st.lazy, FALSE, st.dev))
      IN again.out.kind = "ok" /\ again.out.returned = st.out.returned
+
+(* C20: validating with head/tail/sample reaches the verdict of validating the  *)
+(* explicitly selected rows, and returns the whole object                        *)
+SubsampleIsSubframe ==
+  Done /\ Ideal /\ ~st.sel.all /\ NoParsing(st.S) /\ ~HasIndexS(st.S) =>
+     LET sub == SubField(st.inp0, Selected(st.sel, st.inp0.idx, {}))
+         expl == Run(Start(st.S, sub, st.lazy, FALSE, {}))
+     IN /\ (st.out.kind = "ok") <=> (expl.out.kind = "ok")
+        /\ st.out.kind = "ok" => st.out.returned = st.inp0
+SelectAllIsNoOption ==
+  Done /\ Ideal /\ ~st.sel.all /\ Len(Selected(st.sel, st.inp0.idx, {})) = Len(st.inp0.idx) =>
+     (st.out.kind = "ok") <=> (Run(Start(st.S, st.inp0, st.lazy, st.inplace, {})).out.kind = "ok")
 
 (* C04: the caller's object is never written without inplace *)
 NoCallerMutation == Ideal /\ ~st.inplace => st.inp = st.inp0
